@@ -75,10 +75,13 @@ FreeNumbered(prefix, ext, isdir, used, n) ==
     ELSE LET tmp == prefix \o Digits3(n) \o (IF isdir THEN <<>> ELSE <<DOT>> \o ext)
          IN IF tmp \in used THEN FreeNumbered(prefix, ext, isdir, used, n + 1) ELSE tmp
 
+\* (the repaired scheme of proposed_fixes/genisoimage-collision-prefix.diff takes the prefix from
+\*  the name part: NumberingPrefix == Take(IF isdir THEN fm ELSE MangleFile(orig, lvl).name, 5))
+NumberingPrefix(orig, isdir, lvl, fm) == Take(fm, 5)
 IdentFor(orig, isdir, lvl, used) ==
     LET fm == Mangled(orig, isdir, lvl)
     IN IF fm \in used
-       THEN FreeNumbered(Take(fm, 5), MangleFile(orig, lvl).ext, isdir, used, 0)
+       THEN FreeNumbered(NumberingPrefix(orig, isdir, lvl, fm), MangleFile(orig, lvl).ext, isdir, used, 0)
        ELSE fm
 
 \* sibs: sequence of [n |-> name, d |-> is a directory] in the order the tool meets them
